@@ -23,6 +23,7 @@ class Verifier(Exec):
         self.specfun_axioms = set()
         self.pending_specfun = []
         self.unfolding = 0
+        self.last_anchor_line = {}
         self.unfolded = set()
 
     # ------------------------------------------------------------------ misc helpers used by SpecEval
@@ -44,6 +45,15 @@ class Verifier(Exec):
             for full, c in self.prog.consts.items():
                 if full.endswith('/' + p + '.' + n) or full == p + '.' + n:
                     return self.const_val(None, c)
+        return None
+
+    def find_func(self, name):
+        pk = self.fn['pkg']
+        if pk + '.' + name in self.prog.funcs:
+            return pk + '.' + name
+        for f in self.prog.funcs:
+            if f.endswith('.' + name) and '(' not in f:
+                return f
         return None
 
     def lookup_global(self, st, name):
@@ -346,7 +356,7 @@ class Verifier(Exec):
                 for pos, n in lst:
                     if pos == scope[name]:
                         target = n
-            elif scope is None and len(lst) == 1:
+            elif len(lst) == 1:
                 target = lst[0][1]
             if target is None:
                 continue
@@ -877,6 +887,8 @@ class Verifier(Exec):
                         env2[rnames[i]] = e
             elif rnames and rnames[0]:
                 env2[rnames[0]] = res
+        if 'pure' in spec.opts and res is not None:
+            self.assume_pure(st, pre_state, callee, args, res)
         saved_alloc0, saved_oldenv = self.alloc0, self.old_env
         self.alloc0_call = alloc_before
         for cl in spec.ensures:
@@ -886,6 +898,22 @@ class Verifier(Exec):
             t = ev.boolean(cl.expr)
             self.ctx.assume(implies(st.pc, t))
         return res
+
+    def pure_app(self, st, callee, args, idx, sort):
+        flat = []
+        for a in args:
+            self.flatten(self.snapshot(st, a), flat)
+        name = 'pure:%s.%d' % (short_fn(callee), idx)
+        self.ctx.declare_fun(name, [t.sort for t in flat], sort)
+        return app(name, flat, sort)
+
+    def assume_pure(self, st, pre_state, callee, args, res):
+        """a function marked pure (deterministic, modifies nothing): its scalar results are a function of its arguments"""
+        vals = res.elems if isinstance(res, TupleV) else [res]
+        for i, r in enumerate(vals):
+            if isinstance(r, T):
+                self.ctx.assume(implies(st.pc, eq(r, self.pure_app(pre_state, callee, args, i, r.sort))))
+        self.trusted.add('%s is deterministic (pure): results are a function of the argument values' % short_fn(callee))
 
     def bound_new_addrs(self, v, tid, st):
         """addresses returned by a callee are allocated (< alloc after the call)"""
@@ -1039,8 +1067,39 @@ class Verifier(Exec):
         return n
 
     # ------------------------------------------------------------------ one instruction
+    def anchors_at(self, st, line):
+        spec = self.spec
+        if not spec or not getattr(spec, 'anchored', None) or not line:
+            return
+        if self.srclines is None:
+            try:
+                self.srclines = open(self.fn['file']).read().split('\n')
+            except (IOError, KeyError):
+                self.srclines = []
+        if line - 1 >= len(self.srclines):
+            return
+        text = self.srclines[line - 1]
+        for cl in spec.anchored:
+            if cl.anchor in text:
+                scope = self.scope_at_line(line)
+                env = self.spec_env(scope)
+                self.cur_detail = 'anchor'
+                self.apply_use(cl, st, env)
+
+    def scope_at_line(self, line):
+        best = None
+        for lp in (self.fn.get('loops') or []):
+            if lp['line'] <= line <= lp['endline']:
+                if best is None or (lp['endline'] - lp['line']) < (best['endline'] - best['line']):
+                    best = lp
+        return best['scope'] if best else self.fn.get('scope_exit')
+
     def step(self, st, ins, blk):
         op = ins['op']
+        ln = ins.get('line')
+        if ln and ln != self.last_anchor_line.get(blk['index']):
+            self.last_anchor_line[blk['index']] = ln
+            self.anchors_at(st, ln)
         self.cur_line = ins.get('line') or self.cur_line
         self.cur_detail = ins.get('name') or op
         self.cur_detail = self.detail_for(ins)
